@@ -27,10 +27,19 @@ def strip_end(entries):
     return [e for e in entries if isinstance(e, Atom) or not e.startswith(("END", "MASTER"))]
 
 
-def ensure_ter(entries):
+def ensure_ter(entries, allow_open_hetero=False):
+    """Terminate the part.  If it ends with a hetero block whose preceding protein chain is already terminated (TER
+    record or terminal oxygen), the trailing TER may be left out: hetero records never start or end a chain."""
     ents = list(entries)
     last = next((e for e in reversed(ents)), None)
     if isinstance(last, Atom):
+        if allow_open_hetero and last.rec == "HETATM":
+            k = len(ents) - 1
+            while k >= 0 and isinstance(ents[k], Atom) and ents[k].rec == "HETATM":
+                k -= 1
+            prev = ents[k] if k >= 0 else None
+            if prev is None or (isinstance(prev, str) and prev.startswith("TER")):
+                return ents
         ents.append(gen.ter_line(last))
     return ents
 
@@ -83,8 +92,9 @@ def pair_cases(draw, quick):
         eb = [e.copy() if isinstance(e, Atom) else e for e in sb.entries]
     else:
         eb = [e.copy() if isinstance(e, Atom) else e for e in sa.entries]
-    ea = ensure_ter(strip_end([e.copy() if isinstance(e, Atom) else e for e in sa.entries]))
-    eb = ensure_ter(strip_end(eb))
+    open_het = draw(st.booleans())
+    ea = ensure_ter(strip_end([e.copy() if isinstance(e, Atom) else e for e in sa.entries]), open_het)
+    eb = ensure_ter(strip_end(eb), open_het)
     # residue identifiers of B must not collide with A's
     ids_a = {(a.chain, a.resnum, a.icode) for a in pdbio.atoms_of(ea)}
     chains_a = {a.chain for a in pdbio.atoms_of(ea)}
